@@ -18,7 +18,7 @@ import numpy as np
 from contracts.histories import wf_file
 from pyvc.contracts import Contract
 
-KINDS = ("points", "curve", "surface", "grid2d", "geoimage", "blockmodel", "octree", "drillhole", "tem", "dcip", "tipper", "group")
+KINDS = ("points", "curve", "surface", "grid2d", "geoimage", "blockmodel", "octree", "drapemodel", "drillhole", "tem", "dcip", "tipper", "group")
 
 
 def _verts(n=6, off=0.0):
@@ -58,6 +58,13 @@ def build(ws, kind):
         o = Octree.create(ws, name="oct", origin=[0.0, 0.0, 0.0], u_count=4, v_count=4, w_count=4, u_cell_size=10.0, v_cell_size=10.0, w_cell_size=10.0)
         o.add_data({"a": {"values": np.arange(o.n_cells, dtype=float)}})
         return o
+    if kind == "drapemodel":
+        from geoh5py.objects import DrapeModel
+
+        o = DrapeModel.create(ws, name="drape", layers=np.array([[0, 0, -1.0], [0, 1, -2.0], [1, 0, -1.5], [2, 0, -1.0], [2, 1, -3.0]]),
+                              prisms=np.array([[5.0, 5.0, 0.0, 0, 2], [15.0, 5.0, 0.0, 2, 1], [25.0, 5.0, 0.0, 3, 2]]))
+        o.add_data({"a": {"values": np.arange(5.0)}})
+        return o
     if kind == "drillhole":
         o = Drillhole.create(ws, name="dh", collar=[5.0, 5.0, 0.0], surveys=np.c_[np.r_[0.0, 30.0, 60.0], np.zeros(3), np.ones(3) * -80.0])
         o.add_data({"log": {"depth": np.arange(5.0) * 10, "values": np.arange(5.0)}, "iv": {"from-to": np.c_[np.arange(3.0) * 10, np.arange(3.0) * 10 + 5], "values": np.arange(3.0)}})
@@ -69,6 +76,8 @@ def build(ws, kind):
         tx = AirborneTEMTransmitters.create(ws, name="tx", vertices=_verts(off=1.0))
         rx.transmitters = tx
         rx.channels = [1e-3, 2e-3]
+        rx.waveform = np.c_[np.linspace(0.0, 1.0, 3), np.r_[0.0, 1.0, 0.0]]
+        rx.timing_mark = 0.5
         d = rx.add_data({"ch1": {"values": np.arange(6.0)}, "ch2": {"values": np.arange(6.0) + 1}})
         rx.add_components_data({"dBdt": d})
         return rx
@@ -114,10 +123,10 @@ class CopiesKeepFilesValid(Contract):
     has_native = True
     native_shards = 6
     props = ("C02", "C12")
-    bounded_scope = ("one object per kind in {points, curve, surface, grid2d, geoimage, block model, octree, drillhole, airborne TEM pair, DC/IP pair, tipper pair, group of objects} with data; "
+    bounded_scope = ("one object per kind in {points, curve, surface, grid2d, geoimage, block model, octree, drape model, drillhole, airborne TEM pair, DC/IP pair, tipper pair, group of objects} with data; "
                      "copy() and copy_from_extent() (box keeps part / keeps all / misses everything, plain and inverse) into {the same workspace, a group of another workspace, the other workspace itself}; "
                      "after closing, both files satisfy every structural validity clause, every stored node of the source (entities, data, the types they use with their value maps) is unchanged, and the source file's entity count is unchanged by copies that go elsewhere (exhaustive over the listed combinations: "
-                     "12 kinds x 3 targets x (1 + 3 x 2) operations)")
+                     "13 kinds x 3 targets x (1 + 3 x 2) operations)")
 
     def native_cases(self, tier, rng):
         for kind in KINDS:
@@ -151,7 +160,7 @@ class CopiesKeepFilesValid(Contract):
                 ContainerGroup.create(other, name="clips")
             failed = None
             with Workspace(src, mode="r+") as ws, Workspace(dst, mode="r+") as other:
-                obj = [e for e in list(ws.objects) + list(ws.groups) if e.name in ("pts", "crv", "srf", "grd", "img", "bm", "oct", "dh", "rx", "pot", "tip", "grp")][0]
+                obj = [e for e in list(ws.objects) + list(ws.groups) if e.name in ("pts", "crv", "srf", "grd", "img", "bm", "oct", "drape", "dh", "rx", "pot", "tip", "grp")][0]
                 parent = {"same": None, "other-group": other.get_entity("clips")[0], "other-workspace": other}[case["target"]]
                 try:
                     if case["op"] == "copy":
